@@ -22,7 +22,7 @@ echo "== demo with the change" >> $log
 (cd $wt && PYTHONPATH=$wt timeout 600 /venv/bin/python $out/demo.py > /tmp/demo1.out 2>&1; echo "exit=$?" >> /tmp/demo1.out); tail -3 /tmp/demo1.out >> $log
 echo "== ./check $pid --tier quick against the tree with the change (VERIF_REPO=$wt; /repo itself is not touched)" >> $log
 cp /verif/evidence/$pid.json /tmp/ev_$pid.bak 2>/dev/null
-(cd /verif && VERIF_REPO=$wt timeout 1800 ./check $pid --tier quick 2>&1 | grep -v WARNING | grep -E "VIOLATION|sig=|RESULT|HARNESS|KNOWN" | cut -c1-400; echo "check_exit=${PIPESTATUS[0]}") >> $log
+(cd /verif && VERIF_REPO=$wt timeout 1800 ./check $pid --tier quick ${SEED_BUDGET:+--budget $SEED_BUDGET} 2>&1 | grep -v WARNING | grep -E "VIOLATION|sig=|RESULT|HARNESS|KNOWN" | cut -c1-400; echo "check_exit=${PIPESTATUS[0]}") >> $log
 cp /tmp/ev_$pid.bak /verif/evidence/$pid.json 2>/dev/null
 git -C /repo worktree remove --force $wt
 cat $log | cut -c1-300
